@@ -129,6 +129,30 @@ def shard_text(cases, tab, fcases=()):
             % (body, rows, fbody, mm))
 
 
+_KNOWN = None
+
+
+def match_known(signature):
+    """vlib.match_known semantics (every key of an open entry's signature equals the observed one), but the
+    shared known_findings.json is read ONCE, with retries: other checks rewrite that file concurrently."""
+    global _KNOWN
+    if _KNOWN is None:
+        import time
+        for attempt in range(20):
+            try:
+                _KNOWN = [f for f in vlib.load_known() if f.get("property") == PROP and f.get("status") != "fixed"]
+                break
+            except (ValueError, OSError):
+                time.sleep(0.5)
+        else:
+            raise
+    for f in _KNOWN:
+        sig = f.get("signature", {})
+        if all(signature.get(k) == v for k, v in sig.items()):
+            return f
+    return None
+
+
 def ixn_brief(x):
     return "%s%s->%s:%s" % ((x["src_peer"] + "/") if x["src_peer"] else "", x["src_name"], x["dst_name"],
                             x["action"] or ("L7x%d" % len(x["perms"])))
@@ -149,9 +173,10 @@ def run(ctx):
         "connection model: URI SAN of the client certificate and URI of the first x-forwarded-client-cert element; trust domains are authenticated by TLS (hosts_ok hypothesis); on HTTP listeners that expect peered traffic a peer identity is only established by the local mesh gateway (mirrors makeRBACRules' expectXFCC)",
         "reference semantics of the Go oracle: consul's own IntentionPrecedenceSorter and connect.IntentionMatch, cross-checked on every case against state.Store.IntentionDecision; first matching permission decides, no match falls to the default policy (service-intentions documentation)",
         "sort.Sort(IntentionPrecedenceSorter) is modelled as a stable insertion sort (Go's pdqsort IS an insertion sort up to 12 elements; lists a store hands over have no comparator ties, so any sort gives the same order)",
-        "modelled, not verified: JWT requirements (providerMap = nil); sameness groups (expanded before); enterprise namespaces/partitions are in the model but the community-edition build only exercises 'default'; wildcard partition/peer panics; Envoy itself (the evaluator follows the RBAC filter's documented semantics)"]
+        "modelled, not verified: JWT requirements (providerMap = nil); sameness groups (expanded before); enterprise namespaces/partitions are in the model but the community-edition build only exercises 'default'; wildcard partition/peer panics; Envoy itself (the evaluators follow the RBAC filter's and HeaderMatcher's DOCUMENTED semantics, incl. 'a value matcher on an absent header is ignored, will not match, even with invert_match' - route_components.proto); raw XFCC text variants (DNS= after URI=, quoted commas, sanitised header) and the listeners.go delivery step (which list, default and bundles reach makeRBACRules) are assumptions",
+        "a disagreement of the oracle is excused only if (1) a counterfactual run of the REAL translator attributes it to the cause of an open finding (input without shadowed intentions / inverted value matcher matching an absent header / trust domain or partition read as the regex it is spliced in as), (2) its replay, shrunk under 'same point, same cause', matches that finding's narrow signature, and (3) the Coq model reproduces the two verdicts (for the superset defect additionally: translate_repaired gives the precedence verdict)"]
     assumptions = ["regex engine on method alternations", "segment-wise reading of built SPIFFE patterns", "TLS authenticates trust domains",
-                   "partitions (still spliced unquoted) contain no regex metacharacter"]
+                   "partitions (still spliced unquoted) contain no regex metacharacter", "Envoy HeaderMatcher semantics as documented"]
     if not ok:
         cov.update({"evaluations": 0, "distinct_nontrivial": 0, "rule": "proof stage failed", "samples": []})
         return ctx.finish(cov, assumptions)
@@ -161,7 +186,7 @@ def run(ctx):
     phases["go_build"] = round(time.time() - t1, 1)
     t1 = time.time()
     out = os.path.join(ctx.workdir, "cases.jsonl")
-    rc, o = vlib.sh([binp, "-seed", str(ctx.seed), "-tier", ctx.tier, "-out", out, "-jobs", "6"], timeout=3000)
+    rc, o = vlib.sh([binp, "-seed", str(ctx.seed), "-tier", ctx.tier, "-out", out, "-jobs", "4"], timeout=3000)
     if rc != 0:
         raise vlib.BuildError("harness run failed: " + o[-2000:])
     phases["implementation_and_oracle"] = round(time.time() - t1, 1)
@@ -216,7 +241,7 @@ def run(ctx):
     masked = []           # (finding, known entry) excused by an open known finding: must be reproduced by the model
     for c in with_findings:
         for f in c["findings"]:
-            kf = vlib.match_known(PROP, f["signature"])
+            kf = match_known(f["signature"])
             if kf:
                 known_hits[kf["signature"]["kind"]] += 1
                 ctx.known(kf, kf["what"])
@@ -236,11 +261,19 @@ def run(ctx):
         seen_f.add(key)
         fc = {"input": f["coq"]["input"], "impl": f["coq"]["impl"], "impl_err": "", "samples": f["coq"]["samples"]}
         fcases.append((kf["signature"]["kind"] == "precedence-removal", fc, f))
-    fcap = 400 if ctx.tier == "thorough" else 150
-    fcases = fcases[:fcap]
+    # stratified by finding kind so that a frequent class cannot crowd out the others
+    fcap = 120 if ctx.tier == "thorough" else 30
+    per_kind = collections.Counter()
+    kept_f = []
+    for fc in fcases:
+        k = fc[2]["signature"]["kind"]
+        if per_kind[k] < fcap:
+            per_kind[k] += 1
+            kept_f.append(fc)
+    fcases = kept_f
 
     # ---- model vs implementation, inside Coq ----
-    per = PER_SHARD if ctx.tier == "thorough" else max(1, -(-len(coq_cases) // 6))   # quick: one round of 6 shards
+    per = PER_SHARD if ctx.tier == "thorough" else max(1, -(-len(coq_cases) // 4))   # quick: one round of 4 shards
     shards = [coq_cases[k:k + per] for k in range(0, len(coq_cases), per)]
     nsh = max(1, len(shards))
     fper = -(-len(fcases) // nsh) if fcases else 0
@@ -250,7 +283,7 @@ def run(ctx):
     texts = [shard_text(sh, tab if k == 0 else [], [(a, b) for a, b, _ in fshards[k]]) for k, sh in enumerate(shards)]
     phases["parse_and_write_cases"] = round(time.time() - t1, 1)
     t1 = time.time()
-    res = vlib.coq_run_shards(PROP, texts, timeout=1500, jobs=4 if ctx.tier == "thorough" else 6)
+    res = vlib.coq_run_shards(PROP, texts, timeout=1500, jobs=4)
     phases["coq_shards"] = round(time.time() - t1, 1)
     vlib.log("C14 phases: %s" % phases)
     mism, tab_fail, finding_fail = [], [], []
